@@ -59,7 +59,8 @@ NAMES = {
     'strings': lambda i: ('s0', 'zeta', 'a', 'Mm')[i],
     'tuples': lambda i: (i, 'x'),
 }
-ATOM_MAPS = [{'p': 'q', 'q': 'p'}, {'p': 'alpha', 'q': 'beta'}, {'p': 'p1', 'q': 'p'}, {'p': 'Xp', 'q': 'Ap'}]
+ATOM_MAPS = [{'p': 'q', 'q': 'p'}, {'p': 'alpha', 'q': 'beta'}, {'p': 'p1', 'q': 'p'}, {'p': 'Xp', 'q': 'Ap'},
+             {'p': 'fair', 'q': 'fair0'}, {'p': 'door open', 'q': 'door'}]
 
 
 def formulas(logic, leaves, size=1):
@@ -109,8 +110,31 @@ def mk(k, names, S_order=None, R_order=None, lform='set', rev_L=False, atom_map=
     return Kripke(S=S, R=R, L=L)
 
 
-def run_mc(checker, Kl, f):
-    return as_state_set(call(lib.LANGS[checker].modelcheck, Kl, lib.build(f, lib.LANGS[checker])))
+def atoms_in(f, out=None):
+    out = set() if out is None else out
+    if f[0] == 'ap':
+        out.add(f[1])
+    elif f[0] not in ('t', 'f'):
+        for x in f[1:]:
+            atoms_in(x, out)
+    return out
+
+
+def captured_fair_atom(k, f, m):
+    """True iff the renamed formula mentions an atom named fair / fair<n> that labels no state of the
+    renamed structure (the only situation finding D14 covers)."""
+    import re
+    present = set(m.get(a, a) for l in k.lab for a in l)
+    for a in atoms_in(rename_atoms(f, m)):
+        if re.match(r'fair\d*$', a) and a not in present:
+            return True
+    return False
+
+
+def run_mc(checker, Kl, f, F=None):
+    if F is None:
+        return as_state_set(call(lib.LANGS[checker].modelcheck, Kl, lib.build(f, lib.LANGS[checker])))
+    return as_state_set(call(lib.LANGS[checker].modelcheck, Kl, lib.build(f, lib.LANGS[checker]), F=F))
 
 
 def back(res, names):
@@ -197,6 +221,42 @@ def presentations(inst, tier):
     for m in ATOM_MAPS:
         if not inst.expect(back(run_mc(c, mk(k, ident, atom_map=m), rename_atoms(f, m)), ident), 'atoms',
                            atom_map=m):
+            return
+    # 4b. the same with fairness constraints: the answer under F must survive renaming atoms (also to the
+    # names the library uses for its own fair label), changing the label containers and renaming states
+    for F in ([set()], [set([0])], [set([k.n - 1]), set(range(k.n))]):
+        baseF = back(run_mc(c, mk(k, ident), f, F=[set(x) for x in F]), ident)
+        if baseF[0] != 'set':
+            continue
+        for m in ATOM_MAPS:
+            r = back(run_mc(c, mk(k, ident, atom_map=m), rename_atoms(f, m), F=[set(x) for x in F]), ident)
+            inst.acc.add('schedules')
+            if r != baseF and captured_fair_atom(k, f, m):
+                # known finding D14: an atom of the formula called fair / fair<n> that labels no state is
+                # captured by the library's own fair label
+                inst.acc.finding('D14', kcase(k, f, checker=c, presentation='atoms-under-fairness', atom_map=m,
+                                              F=[sorted(x) for x in F]), baseF, r)
+                continue
+            if r != baseF:
+                inst.acc.violation('presentation-changes-answer',
+                                   kcase(k, f, checker=c, presentation='atoms-under-fairness', atom_map=m,
+                                         F=[sorted(x) for x in F]), baseF, r)
+                return
+        for lform in ('list', 'frozenset'):
+            r = back(run_mc(c, mk(k, ident, lform=lform), f, F=[set(x) for x in F]), ident)
+            inst.acc.add('schedules')
+            if r != baseF:
+                inst.acc.violation('presentation-changes-answer',
+                                   kcase(k, f, checker=c, presentation='labels-under-fairness', lform=lform,
+                                         F=[sorted(x) for x in F]), baseF, r)
+                return
+        names = [NAMES['strings'](k.n - 1 - i) for i in range(k.n)]
+        r = back(run_mc(c, mk(k, names), f, F=[set(names[i] for i in x) for x in F]), names)
+        inst.acc.add('schedules')
+        if r != baseF:
+            inst.acc.violation('presentation-changes-answer',
+                               kcase(k, f, checker=c, presentation='naming-under-fairness', F=[sorted(x) for x in F]),
+                               baseF, r)
             return
     # 5. extra states that are unreachable from the original ones
     extras = [(1, ((0,),), (('p',),)), (1, ((0,),), ((),)), (2, ((1,), (0,)), (('p', 'q'), ())),
@@ -611,6 +671,11 @@ def replay(art):
     f = spaces.from_jsonable(c['f'])
     ck = c['checker']
     pres = c.get('presentation')
+    if art['kind'].startswith('finding:'):
+        inst = Inst(k, ck, f, acc)
+        presentations(inst, 'thorough')
+        fid = sorted(acc.d['findings'])[0] if acc.d['findings'] else None
+        return {'violates': acc.d['nviol'] > 0 or fid is not None, 'finding': None if acc.d['nviol'] else fid}
     if k.n == 4:
         perm_check(k, ck, [f], acc)
     else:
